@@ -33,6 +33,9 @@ pub struct PlanC {
     pub wall_base: i64,
     pub spurious_p: f64,
     pub yield_p: f64,
+    /// probability that an ICMPv6 or LLDP send of erbium fails (ENOBUFS, EPERM, ...)
+    #[serde(default)]
+    pub send_err_p: f64,
 }
 
 fn nd_option(r: &mut Rng) -> Vec<u8> {
@@ -173,7 +176,7 @@ pub fn generate(seed: u64, thorough: bool) -> PlanC {
     }
     t += 10;
     steps.push((t, StepC::Solicit));
-    PlanC { seed, shape: "hostile".into(), prefix, ra_config, steps, wall_base: 1_700_000_000 + r.below(100_000_000) as i64, spurious_p: if r.chance(0.3) { 0.05 } else { 0.0 }, yield_p: if r.chance(0.3) { 0.2 } else { 0.0 } }
+    PlanC { seed, shape: "hostile".into(), prefix, ra_config, steps, wall_base: 1_700_000_000 + r.below(100_000_000) as i64, spurious_p: if r.chance(0.3) { 0.05 } else { 0.0 }, yield_p: if r.chance(0.3) { 0.2 } else { 0.0 }, send_err_p: { let mut k = Rng::new(seed, "plan-c-send-err"); if k.chance(0.25) { *k.pick(&[0.05, 0.3]) } else { 0.0 } } }
 }
 
 pub async fn run_async(plan: &PlanC, trace: bool) -> RunResult {
@@ -183,7 +186,7 @@ pub async fn run_async(plan: &PlanC, trace: bool) -> RunResult {
         Iface { ifidx: 1, name: "lo".into(), mac: [0; 6], mtu: 65536, v4: vec![(Ipv4Addr::LOCALHOST, 8)], v6: vec![(Ipv6Addr::LOCALHOST, 128)], multicast: false },
         Iface { ifidx: 2, name: "lan0".into(), mac: [2, 0, 0x5e, 0x30, 0, 1], mtu: 1500, v4: vec![(Ipv4Addr::new(192, 0, 2, 1), 24)], v6: vec![(Ipv6Addr::new(0xfe80, 0, 0, 0, 0, 0, 0, 1), 64), (lan6, 64)], multicast: true },
     ];
-    let kernel = Kernel::new(plan.seed, ifaces.clone(), None, Knobs { spurious_p: plan.spurious_p, yield_p: plan.yield_p, ..Default::default() }, trace);
+    let kernel = Kernel::new(plan.seed, ifaces.clone(), None, Knobs { spurious_p: plan.spurious_p, yield_p: plan.yield_p, send_err_p: plan.send_err_p, ..Default::default() }, trace);
     erbium_net::sim::install(Some(std::rc::Rc::new(KHandle(kernel.clone()))));
     crate::interpose::arm(plan.seed, plan.wall_base, 16);
     let t0 = Instant::now();
@@ -237,7 +240,19 @@ pub async fn run_async(plan: &PlanC, trace: bool) -> RunResult {
                 let rs = vec![133u8, 0, 0, 0, 0, 0, 0, 0, 1, 1, 2, 0, 0, 0, 0, 0x99];
                 kernel.inject_icmp6(2, neigh, all_routers, &rs);
                 tokio::time::sleep(Duration::from_millis(2)).await;
-                let outs = kernel.take_out();
+                let mut outs = kernel.take_out();
+                if outs.iter().any(|o| o.injected) {
+                    /* the advertisement was lost to a failed sendmsg: the service must answer
+                     * the next solicitation, sent with the fault switched off */
+                    *res.faults.entry("sendmsg_error".into()).or_insert(0) += 1;
+                    res.probe("C05.router_advertisement_lost_to_a_failed_sendmsg");
+                    kernel.with(|k| k.knobs.send_err_p = 0.0);
+                    kernel.inject_icmp6(2, neigh, all_routers, &rs);
+                    tokio::time::sleep(Duration::from_millis(2)).await;
+                    outs = kernel.take_out();
+                    let p = plan.send_err_p;
+                    kernel.with(|k| k.knobs.send_err_p = p);
+                }
                 let answered = outs.iter().any(|o| matches!(&o.kind, OutKind::Icmp6 { data, dst, .. } if data.first() == Some(&134) && *dst == neigh && o.errno.is_none()));
                 res.probe("C05.router_solicitation_probe");
                 nontrivial += 1;
